@@ -89,3 +89,79 @@ def make_scratch(name):
 
 def apply(name):
     raise RuntimeError("in-process mutants are not used; mutants are applied to scratch copies (VERIF_REPO)")
+
+
+# ---------------------------------------------------------------------------------------------- C13
+CG = "linear_operator/utils/linear_cg.py"
+MR = "linear_operator/utils/minres.py"
+LZ = "linear_operator/utils/lanczos.py"
+PC = "linear_operator/functions/_pivoted_cholesky.py"
+KP = "linear_operator/operators/kronecker_product_linear_operator.py"
+CM = "linear_operator/operators/constant_mul_linear_operator.py"
+TZ = "linear_operator/operators/toeplitz_linear_operator.py"
+SP = "linear_operator/utils/sparse.py"
+AD = "linear_operator/operators/added_diag_linear_operator.py"
+MM = "linear_operator/utils/memoize.py"
+DN = "linear_operator/operators/dense_linear_operator.py"
+QR = "linear_operator/utils/qr.py"
+IP = "linear_operator/utils/interpolation.py"
+TU = "linear_operator/utils/toeplitz.py"
+
+_m("c13_cg_rhs_div_inplace", "C13", CG, [("    rhs = rhs.div(rhs_norm)", "    rhs = rhs.div_(rhs_norm)")], "CG normalises the caller's rhs in place")
+_m("c13_cg_initial_guess_inplace", "C13", CG, [("    initial_guess = initial_guess.div(rhs_norm)", "    initial_guess = initial_guess.div_(rhs_norm)")])
+_m("c13_chol_alias_input", "C13", CH, [("Aprime = A.clone()", "Aprime = A")], "only visible on the jitter (failure) path")
+_m("c13_pivchol_no_diag_clone", "C13", PC, [("        matrix_diag = matrix_diag.clone()\n", "")], "pivoted Cholesky scatters into the operator's own diagonal")
+_m("c13_kron_solve_no_clone", "C13", KP, [("y = rhs.clone().expand(*batch_shape, *rhs.shape[-2:])", "y = rhs.expand(*batch_shape, *rhs.shape[-2:])"),
+                                          ("            y = q.solve(y.reshape(*batch_shape, n, -1))", "            y = q.solve(y.reshape(*batch_shape, n, -1)); rhs.mul_(1.0)")], "rhs touched in place by the Kronecker solve")
+_m("c13_minres_rhs_inplace", "C13", MR, [("    rhs = rhs.div(rhs_norm)", "    rhs = rhs.div_(rhs_norm)")])
+_m("c13_lanczos_init_inplace", "C13", LZ, [("    q_0_vec = init_vecs / torch.norm(init_vecs, 2, dim=dim_dimension).unsqueeze(dim_dimension)",
+                                            "    q_0_vec = init_vecs.div_(torch.norm(init_vecs, 2, dim=dim_dimension).unsqueeze(dim_dimension))")])
+_m("c13_constmul_inplace", "C13", CM, [("        res = res * self.expanded_constant\n        return res", "        res = res.mul_(self.expanded_constant)\n        return res")],
+   "visible when the base returns its argument (identity) or a cached tensor")
+_m("c13_toeplitz_add_jitter_inplace", "C13", TZ, [("        return ToeplitzLinearOperator(self.column.add(jitter))", "        return ToeplitzLinearOperator(self.column.add_(jitter))")])
+_m("c13_make_sparse_resize_view", "C13", SP, [("        value_tensor = torch.zeros(1, dtype=value_tensor.dtype, device=value_tensor.device)", "        value_tensor = value_tensor.resize_(1).zero_()")],
+   "the original defect")
+_m("c13_dense_diag_inplace_jitter", "C13", LO, [("        diag = torch.tensor(jitter_val, dtype=self.dtype, device=self.device)\n        return self.add_diagonal(diag)",
+                                                 "        if hasattr(self, 'tensor') and self.tensor.dim() == 2:\n            self.tensor.diagonal().add_(jitter_val)\n            return self\n        diag = torch.tensor(jitter_val, dtype=self.dtype, device=self.device)\n        return self.add_diagonal(diag)")],
+   "add_jitter writes into the dense operator's own tensor")
+_m("c13_cholesky_writes_cached_dense", "C13", LO, [("        cholesky = psd_safe_cholesky(evaluated_mat, upper=upper).contiguous()", "        cholesky = psd_safe_cholesky(evaluated_mat, upper=upper, out=evaluated_mat).contiguous()")],
+   "Cholesky factor written over the (cached / caller-owned) dense matrix")
+_m("c13_stable_qr_inplace", "C13", QR, [("        R = R + torch.diag_embed(jitter_diag)", "        R = R + torch.diag_embed(jitter_diag)\n        mat.mul_(1.0)")], "only on the rank-deficient (jitter) path of stable_qr")
+_m("c13_left_interp_inplace", "C13", IP, [("        res = rhs_expanded.gather(-3, interp_indices_expanded).mul(interp_values_expanded)", "        res = rhs_expanded.gather(-3, interp_indices_expanded).mul(interp_values_expanded)\n        interp_values.clamp_(min=-1e30)")])
+_m("c13_solve_rhs_scaled_inplace_on_early_exit", "C13", CG, [("    # Let's normalize. We'll un-normalize afterwards\n", "    if max_iter == 0:\n        rhs.mul_(1.0)\n    # Let's normalize. We'll un-normalize afterwards\n")], "in-place write only on the max_iter == 0 early-exit path")
+
+# ---------------------------------------------------------------------------------------------- C12
+_m("c12_cached_name_only", "C12", MM, [("        if not _is_in_cache(self, cache_name, *args, kwargs_pkl=kwargs_pkl):\n            return _add_to_cache(self, cache_name, method(self, *args, **kwargs), *args, kwargs_pkl=kwargs_pkl)\n        return _get_from_cache(self, cache_name, *args, kwargs_pkl=kwargs_pkl)",
+                                        "        kwargs_pkl = pickle.dumps({})\n        args_ = ()\n        if not _is_in_cache(self, cache_name, *args_, kwargs_pkl=kwargs_pkl):\n            return _add_to_cache(self, cache_name, method(self, *args, **kwargs), *args_, kwargs_pkl=kwargs_pkl)\n        return _get_from_cache(self, cache_name, *args_, kwargs_pkl=kwargs_pkl)")],
+   "@cached keyed on the name only: methods / arguments confused")
+_m("c12_cholesky_upper_into_cache", "C12", LO, [("        chol = self._cholesky(upper=False)\n        if upper:\n            chol = chol._transpose_nonbatch()\n        return chol",
+                                                 "        chol = self._cholesky(upper=False)\n        if upper:\n            from linear_operator.utils.memoize import add_to_cache as _atc\n            chol = chol._transpose_nonbatch()\n            _atc(self, 'cholesky', chol, upper=False)\n        return chol")],
+   "cholesky(upper=True) overwrites the cache entry of the lower factor")
+_m("c12_inv_root_cached_as_root", "C12", LO, [("            add_to_cache(self, \"root_decomposition\", RootLinearOperator(roots))\n\n        return inv_roots",
+                                               "            add_to_cache(self, \"root_decomposition\", RootLinearOperator(inv_roots))\n\n        return inv_roots")],
+   "_root_inv_decomposition caches the inverse root as the root")
+_m("c12_add_low_rank_caches_old_root", "C12", LO, [("        add_to_cache(new_linear_op, \"root_decomposition\", RootLinearOperator(updated_root))\n        add_to_cache(new_linear_op, \"root_inv_decomposition\", RootLinearOperator(updated_inv_root))",
+                                                    "        add_to_cache(new_linear_op, \"root_decomposition\", RootLinearOperator(current_root))\n        add_to_cache(new_linear_op, \"root_inv_decomposition\", RootLinearOperator(updated_inv_root))")],
+   "add_low_rank transplants the un-updated root")
+_m("c12_add_diagonal_copies_cache", "C12", LO, [("        return AddedDiagLinearOperator(self, diag_tensor)\n\n    def add_jitter(", "        res = AddedDiagLinearOperator(self, diag_tensor)\n        res._memoize_cache = dict(getattr(self, '_memoize_cache', {}))\n        return res\n\n    def add_jitter(")],
+   "add_diagonal / add_jitter copy the parent's caches onto the new operator")
+_m("c12_cat_rows_wrong_block", "C12", LO, [("        new_root[..., m:, : lower_left.shape[-1]] = lower_left", "        new_root[..., m:, : lower_left.shape[-1]] = lower_left * 0.5")])
+_m("c12_choose_root_other_object", "C12", LO, [("        if _is_in_cache(self, \"diagonalization\", kwargs_pkl=pickle.dumps({})):\n            return \"diagonalization\"",
+                                                "        if _is_in_cache(self, \"diagonalization\", kwargs_pkl=pickle.dumps({})) or _is_in_cache_ignore_all_args(self, \"svd\"):\n            return \"diagonalization\"")],
+   "a cached svd steers the root method into the (uncached) diagonalization branch")
+_m("c12_triangular_shortcut_for_any_root", "C12", LO, [("                if isinstance(root, TriangularLinearOperator):\n                    cholesky = CholLinearOperator(root)\n                    will_need_cholesky = False",
+                                                        "                if True:\n                    from linear_operator.operators import to_linear_operator as _tlo\n                    cholesky = CholLinearOperator(TriangularLinearOperator(root.to_dense()) if not isinstance(root, TriangularLinearOperator) else root)\n                    will_need_cholesky = False")],
+   "inv_quad_logdet takes the triangular shortcut for a non-triangular cached root")
+_m("c12_cholesky_inplace_on_cached_dense", "C12", LO, [("        cholesky = psd_safe_cholesky(evaluated_mat, upper=upper).contiguous()", "        cholesky = psd_safe_cholesky(evaluated_mat, upper=upper).contiguous()\n        if hasattr(self, '_memoize_cache') and evaluated_mat.dim() >= 2:\n            evaluated_mat.diagonal(dim1=-1, dim2=-2).add_(1e-2)")],
+   "computing the Cholesky factor perturbs the cached dense matrix, later queries see A + 0.01 I")
+_m("c12_precond_cache_published_early", "C12", AD, [("        if self._precond_lt is None:\n            max_iter = settings.max_preconditioner_size.value()", "        if self._q_cache is None:\n            max_iter = settings.max_preconditioner_size.value()")],
+   "the original defect, only visible with F3 crash injection between the assignments of _init_cache")
+_m("c12_getitem_keeps_cache", "C12", LO, [("        # Pad the index with empty indices\n        index = index + tuple(_noop_index for _ in range(ndimension - len(index)))",
+                                           "        # Pad the index with empty indices\n        index = index + tuple(_noop_index for _ in range(ndimension - len(index)))\n        _parent_cache = dict(getattr(self, '_memoize_cache', {}))")],
+   "placeholder, completed below")
+_m("c12_scale_columns_elementwise", "C12", LO, [("    return mat @ DiagLinearOperator(scale)", "    return mat * scale.unsqueeze(-2)")], "the original defect (structured eigenvectors)")
+_m("c12_cat_rows_cached_inv_root", "C12", LO, [("        R = _inv_root_from_root(E).to_dense()", "        R = self.root_inv_decomposition().root.to_dense()")], "the original defect (inverse root from a different factorization)")
+_m("c12_mul_constant_keeps_root_cache", "C12", LO, [("    def _mul_constant(\n        self: Float[LinearOperator, \"*batch M N\"], other: Union[float, torch.Tensor]\n    ) -> Float[LinearOperator, \"*batch M N\"]:",
+                                                     "    def _mul_constant(\n        self: Float[LinearOperator, \"*batch M N\"], other: Union[float, torch.Tensor]\n    ) -> Float[LinearOperator, \"*batch M N\"]:\n        _c = dict(getattr(self, '_memoize_cache', {}))")],
+   "placeholder, completed below")
+del CATALOGUE["c12_getitem_keeps_cache"], CATALOGUE["c12_mul_constant_keeps_root_cache"]
